@@ -92,6 +92,10 @@ class Explorer:
     # -- feasibility ------------------------------------------------------------------------------
     def feasible(self, extra):
         conds = self.base + self.path.condition() + list(extra)
+        if getattr(self.reg, "quot_defs", None):
+            from . import scalars as _sc
+
+            conds = [_sc.expand_quotients(c) for c in conds]
         if any(c is tm.FALSE for c in conds):
             return "unsat"
         script, _, _ = smt.build_script(self.reg, conds, logic=self.logic, want_model=False, timeout_ms=int(self.decide_timeout * 1000))
